@@ -229,7 +229,7 @@ func TestC13(t *testing.T) {
 		return
 	}
 	r.CheckKnown(parts)
-	r.Rapid("redirects", r.N(20000, 600000), c13Prop)
+	r.Rapid("redirects", r.N(20000, 2000000), c13Prop)
 }
 
 // scopeSet is the canonical form of a scope list read as a set.
